@@ -23,11 +23,12 @@ Proof.
   destruct o; cbn [sstep] in H.
   - destruct (s_put_now Prio m x t) as [r1 t1] eqn:E. apply PN in E. destruct r1; inversion H; subst; exact E.
   - eapply PN; exact H.
-  - destruct (s_get_now Prio t) as [r1 t1] eqn:E. pose proof (GN _ _ eq_refl) as E'. destruct r1; inversion H; subst; exact E'.
+  - unfold s_get_op in H. destruct (s_get_now Prio t) as [r1 t1] eqn:E. pose proof (GN _ _ eq_refl) as E'. destruct r1; inversion H; subst; exact E'.
   - eapply GN; exact H.
+  - unfold s_get_op in H. destruct (s_get_now Prio t) as [r1 t1] eqn:E. pose proof (GN _ _ eq_refl) as E'. destruct r1; inversion H; subst; exact E'.
   - destruct (sunf t) as [|[|n]]; inversion H; subst; exact S.
   - inversion H; subst; exact S.
-  - inversion H; subst; clear H. destruct (nth_error _ k) as [f|]; [destruct (is_pending (fstat f) && ftmo f)|]; exact S.
+  - inversion H; subst; clear H. destruct (nth_error _ k) as [f|]; [destruct (is_pending (fstat f) && is_timer (ftmo f))|]; exact S.
   - destruct (stat (sfuts t) k) as [[]|]; inversion H; subst; exact S.
   - inversion H; subst; exact S.
 Qed.
@@ -43,64 +44,117 @@ Qed.
 Lemma reference_priority_sorted m ops : StronglySorted Z.le (sq (snd (srun Prio m ops s_init))).
 Proof. apply srun_sorted. constructor. Qed.
 
-(* ---- a blocked operation that times out leaves the reference unchanged ---- *)
+(* ---- a blocked operation that times out leaves no trace in the reference:
+   afterwards the queue part (items, both waiter queues, unfinished count) is
+   what a plain run of the loop would have left ---- *)
+Definition qpart (t : sst) : list Z * list nat * list (Z * nat) * nat :=
+  (sq t, sgetters t, sputters t, sunf t).
+
 Lemma rm_fresh {A} (key : A -> nat) (l : list A) k :
   Forall (fun a => key a < k) l -> filter (fun a => negb (key a =? k)) l = l.
 Proof.
   intros H. apply filter_rm_notin. rewrite Forall_forall in H. intros a Ha E. specialize (H a Ha). lia.
 Qed.
 
-Lemma nth_drain_new fs f : fstat f = Pending ->
-  nth_error (map drain_fut (fs ++ [f])) (length fs) = Some f.
-Proof.
-  intros P. rewrite nth_error_map, nth_error_app_new. simpl. unfold drain_fut. rewrite P. reflexivity.
-Qed.
+Lemma Forall_filter {A} (P : A -> Prop) (p : A -> bool) l : Forall P l -> Forall P (filter p l).
+Proof. rewrite !Forall_forall. intros H a Ha. apply filter_In in Ha. apply H. apply Ha. Qed.
+
+Lemma nth_drain_new fs f : nth_error (map drain_fut (fs ++ [f])) (length fs) = Some (drain_fut f).
+Proof. rewrite nth_error_map, nth_error_app_new. reflexivity. Qed.
+
+Lemma drain_new_filter {A} (key : A -> nat) fs pf (l : list A) :
+  Forall (fun a => key a < length fs) l ->
+  filter (livek key (map drain_fut (fs ++ [pf]))) l = filter (livek key (map drain_fut fs)) l.
+Proof. intros H. rewrite map_app. simpl. apply filter_app_futs. rewrite map_length. exact H. Qed.
+
+Lemma live_drain_new fs pf :
+  live (map drain_fut (fs ++ [pf])) (length fs) = is_pending (fstat (drain_fut pf)).
+Proof. rewrite live_spec, nth_drain_new. reflexivity. Qed.
 
 Lemma stat_upd_new fs f v : stat (upd (map drain_fut (fs ++ [f])) (length fs) v) (length fs) = Some v.
 Proof.
   unfold stat. rewrite nth_error_upd, Nat.eqb_refl, nth_error_map, nth_error_app_new. reflexivity.
 Qed.
 
-Lemma timed_out_put_no_effect kd m x t :
-  Forall (fun g => gkey g < length (sfuts t)) (sgetters t) ->
-  Forall (fun p => pkey p < length (sfuts t)) (sputters t) ->
-  s_put_now kd m x t = (RFull, t) ->                      (* the put has to wait *)
-  let k := length (sfuts t) in
-  let t1 := snd (sstep kd m (Put x true) t) in
-  let t2 := snd (sstep kd m (Expire k) t1) in
-  fst (sstep kd m (Put x true) t) = RFut k /\ stat (sfuts t1) k = Some Pending /\
-  sq t2 = sq t /\ sgetters t2 = sgetters t /\ sputters t2 = sputters t /\ sunf t2 = sunf t /\
-  stat (sfuts t2) k = Some TimedOut.
-Proof.
-  intros HG HP E k t1 t2. subst t1 t2 k. cbn [sstep]. rewrite E. cbn [fst snd sfuts sq sgetters sputters sunf].
-  unfold s_new. rewrite (nth_drain_new (sfuts t) (mkfut FPut true x Pending) eq_refl). cbn [is_pending fstat ftmo andb].
-  unfold s_finish; cbn [fst snd sfuts sq sgetters sputters sunf].
-  repeat split.
-  - unfold stat. rewrite nth_error_app_new. reflexivity.
-  - unfold rm_getter. apply rm_fresh. exact HG.
-  - unfold rm_putter. rewrite filter_app. cbn [filter pkey snd]. rewrite Nat.eqb_refl. cbn [negb].
-    rewrite app_nil_r. apply rm_fresh. exact HP.
-  - apply stat_upd_new.
-Qed.
+Lemma stat_drain_new fs f : stat (map drain_fut (fs ++ [f])) (length fs) = Some (fstat (drain_fut f)).
+Proof. unfold stat. rewrite nth_drain_new. reflexivity. Qed.
 
-Lemma timed_out_get_no_effect kd m t :
-  Forall (fun g => gkey g < length (sfuts t)) (sgetters t) ->
-  Forall (fun p => pkey p < length (sfuts t)) (sputters t) ->
-  s_get_now kd t = (REmpty, t) ->                         (* the get has to wait *)
-  let k := length (sfuts t) in
-  let t1 := snd (sstep kd m (Get true) t) in
-  let t2 := snd (sstep kd m (Expire k) t1) in
-  fst (sstep kd m (Get true) t) = RFut k /\ stat (sfuts t1) k = Some Pending /\
-  sq t2 = sq t /\ sgetters t2 = sgetters t /\ sputters t2 = sputters t /\ sunf t2 = sunf t /\
-  stat (sfuts t2) k = Some TimedOut.
-Proof.
-  intros HG HP E k t1 t2. subst t1 t2 k. cbn [sstep]. rewrite E. cbn [fst snd sfuts sq sgetters sputters sunf].
-  unfold s_new. rewrite (nth_drain_new (sfuts t) (mkfut FGet true 0 Pending) eq_refl). cbn [is_pending fstat ftmo andb].
-  unfold s_finish; cbn [fst snd sfuts sq sgetters sputters sunf].
-  repeat split.
-  - unfold stat. rewrite nth_error_app_new. reflexivity.
-  - unfold rm_getter. rewrite filter_app. cbn [filter gkey]. rewrite Nat.eqb_refl. cbn [negb].
-    rewrite app_nil_r. apply rm_fresh. exact HG.
-  - unfold rm_putter. apply rm_fresh. exact HP.
-  - apply stat_upd_new.
-Qed.
+Lemma stat_app_new fs f : stat (fs ++ [f]) (length fs) = Some (fstat f).
+Proof. unfold stat. rewrite nth_error_app_new. reflexivity. Qed.
+
+Section TimedOut.
+  Variables (kd : qkind) (m : nat) (t : sst).
+  Hypothesis HG : Forall (fun g => gkey g < length (sfuts t)) (sgetters t).
+  Hypothesis HP : Forall (fun p => pkey p < length (sfuts t)) (sputters t).
+  Let k := length (sfuts t).
+
+  (* put with a deadline, then its timer fires *)
+  Lemma timed_out_put_no_effect x :
+    s_put_now kd m x t = (RFull, t) ->                      (* the put has to wait *)
+    let t1 := snd (sstep kd m (Put x TTimer) t) in
+    let t2 := snd (sstep kd m (Expire k) t1) in
+    fst (sstep kd m (Put x TTimer) t) = RFut k /\ stat (sfuts t1) k = Some Pending /\
+    qpart t2 = qpart (s_drain t) /\ stat (sfuts t2) k = Some TimedOut.
+  Proof.
+    intros E t1 t2. subst t1 t2 k. cbn [sstep]. rewrite E. cbn [fst snd]. unfold s_new, s_drain.
+    cbn [sfuts sq sgetters sputters sunf]. rewrite nth_drain_new.
+    cbn [drain_fut fstat ftmo is_zero is_pending is_timer andb].
+    unfold s_finish, qpart; cbn [sfuts sq sgetters sputters sunf].
+    split; [reflexivity|]. split; [apply stat_app_new|]. split; [|apply stat_upd_new].
+    rewrite filter_app. rewrite (drain_new_filter gkey) by assumption. rewrite (drain_new_filter pkey) by assumption. cbn [filter].
+    unfold livek at 3. cbn [pkey snd]. rewrite live_drain_new.
+    cbn [drain_fut fstat ftmo is_zero is_pending].
+    unfold rm_getter, rm_putter. rewrite filter_app. cbn [filter pkey snd]. rewrite Nat.eqb_refl. cbn [negb].
+    rewrite app_nil_r, !rm_fresh by (apply Forall_filter; assumption). reflexivity.
+  Qed.
+
+  (* put with a zero timeout, then the loop runs *)
+  Lemma zero_timeout_put_no_effect x :
+    s_put_now kd m x t = (RFull, t) ->
+    let t1 := snd (sstep kd m (Put x TZero) t) in
+    let t2 := snd (sstep kd m Drain t1) in
+    fst (sstep kd m (Put x TZero) t) = RFut k /\ stat (sfuts t1) k = Some Pending /\
+    qpart t2 = qpart (s_drain t) /\ stat (sfuts t2) k = Some TimedOut.
+  Proof.
+    intros E t1 t2. subst t1 t2 k. cbn [sstep]. rewrite E. cbn [fst snd]. unfold s_new, s_drain.
+    cbn [sfuts sq sgetters sputters sunf]. unfold qpart; cbn [sfuts sq sgetters sputters sunf].
+    split; [reflexivity|]. split; [apply stat_app_new|]. split; [|rewrite stat_drain_new; reflexivity].
+    rewrite filter_app. rewrite (drain_new_filter gkey) by assumption. rewrite (drain_new_filter pkey) by assumption. cbn [filter].
+    unfold livek at 3. cbn [pkey snd]. rewrite live_drain_new.
+    cbn [drain_fut fstat ftmo is_zero is_pending set_fstat]. rewrite app_nil_r. reflexivity.
+  Qed.
+
+  Lemma timed_out_get_no_effect :
+    s_get_now kd t = (REmpty, t) ->                         (* the get has to wait *)
+    let t1 := snd (sstep kd m (Get TTimer) t) in
+    let t2 := snd (sstep kd m (Expire k) t1) in
+    fst (sstep kd m (Get TTimer) t) = RFut k /\ stat (sfuts t1) k = Some Pending /\
+    qpart t2 = qpart (s_drain t) /\ stat (sfuts t2) k = Some TimedOut.
+  Proof.
+    intros E t1 t2. subst t1 t2 k. cbn [sstep]. unfold s_get_op. rewrite E. cbn [fst snd]. unfold s_new, s_drain.
+    cbn [sfuts sq sgetters sputters sunf]. rewrite nth_drain_new.
+    cbn [drain_fut fstat ftmo is_zero is_pending is_timer andb].
+    unfold s_finish, qpart; cbn [sfuts sq sgetters sputters sunf].
+    split; [reflexivity|]. split; [apply stat_app_new|]. split; [|apply stat_upd_new].
+    rewrite filter_app. rewrite (drain_new_filter gkey) by assumption. rewrite (drain_new_filter pkey) by assumption. cbn [filter].
+    unfold livek at 2. cbn [gkey]. rewrite live_drain_new.
+    cbn [drain_fut fstat ftmo is_zero is_pending].
+    unfold rm_getter, rm_putter. rewrite filter_app. cbn [filter gkey]. rewrite Nat.eqb_refl. cbn [negb].
+    rewrite app_nil_r, !rm_fresh by (apply Forall_filter; assumption). reflexivity.
+  Qed.
+
+  Lemma zero_timeout_get_no_effect :
+    s_get_now kd t = (REmpty, t) ->
+    let t1 := snd (sstep kd m (Get TZero) t) in
+    let t2 := snd (sstep kd m Drain t1) in
+    fst (sstep kd m (Get TZero) t) = RFut k /\ stat (sfuts t1) k = Some Pending /\
+    qpart t2 = qpart (s_drain t) /\ stat (sfuts t2) k = Some TimedOut.
+  Proof.
+    intros E t1 t2. subst t1 t2 k. cbn [sstep]. unfold s_get_op. rewrite E. cbn [fst snd]. unfold s_new, s_drain.
+    cbn [sfuts sq sgetters sputters sunf]. unfold qpart; cbn [sfuts sq sgetters sputters sunf].
+    split; [reflexivity|]. split; [apply stat_app_new|]. split; [|rewrite stat_drain_new; reflexivity].
+    rewrite filter_app. rewrite (drain_new_filter gkey) by assumption. rewrite (drain_new_filter pkey) by assumption. cbn [filter].
+    unfold livek at 2. cbn [gkey]. rewrite live_drain_new.
+    cbn [drain_fut fstat ftmo is_zero is_pending set_fstat]. rewrite app_nil_r. reflexivity.
+  Qed.
+End TimedOut.
